@@ -126,6 +126,29 @@ fn expectation(roots: &[PathBuf], path: &Path, kname: &str, exists_as_dir: Optio
     let mut either = BTreeSet::new();
     let p = normalise(path);
     for r in roots {
+        // relative components are only meaningful below the watched root: a
+        // spelling that leaves the root and comes back is not something a
+        // watcher reports
+        match path.strip_prefix(r) {
+            Err(_) => continue,
+            Ok(rel) => {
+                let mut depth = 0i32;
+                let mut leaves = false;
+                for c in rel.components() {
+                    match c {
+                        std::path::Component::ParentDir => depth -= 1,
+                        std::path::Component::Normal(_) => depth += 1,
+                        _ => {}
+                    }
+                    if depth < 0 {
+                        leaves = true;
+                    }
+                }
+                if leaves {
+                    continue;
+                }
+            }
+        }
         let contradicts = matches!((kname, exists_as_dir), ("remove-folder", Some(false)) | ("remove-file", Some(true)));
         let candidates: Vec<(Ent, bool)> = match exists_as_dir {
             // a removal event for a path that still exists with the other kind
@@ -247,8 +270,27 @@ fn synthetic(rep: &mut Report, rng: &mut Rng, ntrees: usize, base_index: usize) 
         std::fs::write(dir.join("outside/x.a"), b"x").unwrap();
         let root1 = root1.canonicalize().unwrap();
         let root2 = root2.canonicalize().unwrap();
-        for two_roots in [false, true] {
-            let roots = if two_roots { vec![root1.clone(), root2.clone()] } else { vec![root1.clone()] };
+        // third configuration: two overlapping roots (a directory of the tree is watched as a root of its own)
+        let inner_root = t.dirs.iter().find(|d| !d.contains('/')).map(|d| root1.join(d));
+        for config in 0..3 {
+            let two_roots = config == 1;
+            let roots = match config {
+                0 => vec![root1.clone()],
+                1 => vec![root1.clone(), root2.clone()],
+                _ => match &inner_root {
+                    Some(r) => {
+                        if rep.evaluations % 2 == 0 {
+                            vec![root1.clone(), r.clone()]
+                        } else {
+                            vec![r.clone(), root1.clone()]
+                        }
+                    }
+                    None => continue,
+                },
+            };
+            if config == 2 {
+                rep.count("overlapping_root_configurations", 1);
+            }
             let (tx, rx) = event_channel();
             let mut handler = Handler::new(roots.clone(), tx);
             // paths: existing entries of the tree, the root itself, vanished and invalid ones
